@@ -167,6 +167,11 @@ func (c *Cache) Watch(
 		// Create/Get Informer
 		informer, _, err := c.informerMap.Get(ctx, gvk, uns)
 		if err != nil {
+			// The informer may already be running when only waiting for its first sync failed:
+			// without an owner nothing would ever stop it.
+			if delErr := c.informerMap.Delete(ctx, gvk); delErr != nil {
+				log.Error(delErr, "releasing informer after failed start", "gvk", gvk.String())
+			}
 			return fmt.Errorf("getting informer from InformerMap: %w", err)
 		}
 
